@@ -897,8 +897,32 @@ def setter_writes(ctx):
               'np.isinf(value)' in unparse(n.test) and any(
                   isinstance(c, ast.Call) and unparse(c.func) == 'Plane'
                   for b in n.body for c in ast.walk(b))]
+    exact = True
     if infarm:
+        # the replacement keeps only the coordinate system and the conic: it
+        # is right for a plain conic and drops the coefficients of every
+        # subclass (EvenAsphere, polynomial, Chebyshev), which have a flat
+        # base of their own
+        t = unparse(infarm[0].test).replace(' ', '')
+        subs = [k for k in P.classes if k != 'StandardGeometry' and
+                'StandardGeometry' in P.mro(k)]
+        exact = any(x in t for x in (
+            'type(surface.geometry)isStandardGeometry',
+            'type(surface.geometry)==StandardGeometry',
+            'surface.geometry.__class__isStandardGeometry')) or not subs
+        if not exact:
+            res.fail(ctx.finding(
+                'SETTER-WRITES', f, infarm[0],
+                f'set_radius(inf) replaces the geometry by a Plane under the '
+                f'condition `{unparse(infarm[0].test)[:90]}`, which also '
+                f'holds for {", ".join(sorted(subs))}: their coefficients '
+                f'are dropped and the surface that is traced is not the '
+                f'prescribed one', construct='set_radius infinite radius '
+                                             'on a subclass'))
+    if infarm and exact:
         res.ok('set_radius(inf) on a conic surface makes it a plane')
+    elif infarm:
+        pass
     else:
         res.fail(ctx.finding(
             'SETTER-WRITES', f, f.node,
@@ -1624,5 +1648,13 @@ def no_stale(ctx):
     return stale_cache(ctx, 'NO-STALE-STATE', [],
                        'an edit made after the first update() is not followed', min_methods=0)
 
-RULES = [no_stale, flat_conic, remove_relink, geometry_attr, append_default, insertion, derived_sync_rule, arg_wiring_rule, init_stores, scalar_conv, placement, thickness_edit, media_chain, one_stop,
+
+def c14_bounds_units(ctx):
+    """shared with C14: Variable.update hands the value on unchanged (a
+    variable update changes exactly that quantity and reads back the value
+    set)"""
+    from .C14 import bounds_units as _r
+    return _r(ctx)
+
+RULES = [c14_bounds_units, no_stale, flat_conic, remove_relink, geometry_attr, append_default, insertion, derived_sync_rule, arg_wiring_rule, init_stores, scalar_conv, placement, thickness_edit, media_chain, one_stop,
          setter_writes, pickup, solve]
